@@ -396,7 +396,7 @@ fn exec_lean(c: &XCase) -> XOutcome {
             XKind::LeanSpi { buf } => {
                 let mut b = vec![0x5Au8; buf as usize];
                 let usable = ((buf as u64 / *n as u64) * *n as u64).max(1);
-                LEAN_TX_BUDGET.with(|x| x.set(8 + 2 * (want / usable + 1)));
+                LEAN_TX_BUDGET.with(|x| x.set(64 + 4 * (want / usable + 1)));
                 let mut di = SpiInterface::new(LeanSpiDev(ctr.clone()), LeanDc(ctr.clone()), &mut b);
                 crate::exec::guarded(|| dispatch_n!(*n, do_repeat, &mut di, pixel, *count).map_err(|e| format!("{:?}", e)))
             }
@@ -513,8 +513,10 @@ pub fn exec_xcase(c: &XCase) -> XOutcome {
                             XOp::Pixels { n, .. } | XOp::Repeat { n, .. } => *n as u64,
                             _ => 1,
                         };
-                        let usable = ((buf as u64 / n) * n).max(1);
-                        8 + 2 * (nwords / usable + 1)
+                        // C06 only asks for termination after a bounded number of transactions;
+                        // the tight bound floor(b/usable)+1 is C20's business
+                        let _ = (buf, n);
+                        64 + 4 * nwords
                     }
                     _ => 16 + nwords * (4 + width as u64),
                 };
@@ -775,6 +777,34 @@ pub fn gen_xcase(rng: &mut Rng, prop: &str, seed: u64, with_faults: bool, thorou
                 let v = gen_word(rng, prev, wide);
                 ops.push(XOp::SetValue { v });
                 prev = Some(v);
+            }
+        }
+        _ if rng.chance(1, 3) => {
+            // "stale state" family: one pixel size, a palette of two or three pixel values,
+            // small counts - the same value comes back after something else was sent
+            let n = 1 + rng.below(4) as u8;
+            let mask: u16 = if wide { 0xFFFF } else { 0xFF };
+            let pal: Vec<Vec<u16>> = (0..2 + rng.below(2)).map(|_| (0..n).map(|_| rng.next_u64() as u16 & mask).collect()).collect();
+            let cap = if let XKind::Spi { buf } = kind { (buf / n as u32).max(1) as u64 } else { 8 };
+            ops.push(XOp::Cmd { op: 0x2C, args: vec![] });
+            let k = 3 + rng.below(7);
+            for _ in 0..k {
+                if rng.chance(2, 3) {
+                    let count = match rng.below(4) {
+                        0 => cap,
+                        1 => cap + 1 + rng.below(3),
+                        _ => 1 + rng.below(cap.min(8)),
+                    } as u32;
+                    ops.push(XOp::Repeat { n, pixel: rng.pick(&pal).clone(), count: count.min(3000) });
+                } else {
+                    let px = 1 + rng.below(cap.min(8) + 2);
+                    let mut data = Vec::new();
+                    for _ in 0..px {
+                        let p: &Vec<u16> = rng.pick(&pal[..]);
+                        data.extend_from_slice(p);
+                    }
+                    ops.push(XOp::Pixels { n, data });
+                }
             }
         }
         _ => {
